@@ -36,7 +36,6 @@ def showMS : MS → String
   | .resendPubrel => "rprel" | .waitPubrel => "wprel" | .resendPubcomp => "rpcomp"
   | .waitPubcomp => "wpcomp" | .sendPubrec => "sprec" | .queued => "que"
 
-def b01 (b : Bool) : String := if b then "1" else "0"
 
 def showEv : Ev → Option String
   | .tx c b => some s!"tx{c}:{toHex b}"
